@@ -92,6 +92,8 @@ def gappy(rng, a, dtype=np.uint8):
     labs = [int(x) for x in np.unique(a) if x]
     hi = 250 if dtype == np.uint8 else 60000
     new = rng.sample(range(1, hi), len(labs))
+    if new and new[0] % 4 == 0:
+        new[0] = int(np.iinfo(dtype).max)          # the largest label the dtype can hold
     out = np.zeros(a.shape, dtype)
     for k, v in zip(labs, new):
         out[a == k] = v
@@ -128,6 +130,26 @@ def corpus(ctx):
     b[0, 0:5] = 1
     b[0, 10:12] = 3
     one_case(ctx, a, b, cfg, "corpus.gaps")
+
+
+def dtype_max_corpus(ctx):
+    """one side uses the largest label its dtype can hold, the other has instances left unmatched (which need fresh labels)"""
+    for dt in (np.uint8, np.uint16):
+        top = int(np.iinfo(dt).max)
+        for la, lb in ((top, 7), (top, top), (top - 1, top), (top, top - 1)):
+            a = np.zeros((1, 24), dt)
+            b = np.zeros((1, 24), dt)
+            a[0, 0:5] = la
+            b[0, 0:4] = lb
+            b[0, 8:11] = 3          # unmatched on one side
+            b[0, 14:16] = 5
+            a[0, 20:23] = 9         # and on the other
+            for it in ("UNMATCHED", "MATCHED"):
+                if it == "MATCHED" and la != lb:
+                    continue
+                cfg = E.mk_cfg(it, ["IOU", "DSC", "RVD"], matcher=E.naive("IOU", (1, 2)) if it == "UNMATCHED" else None)
+                ctx.count("largest_label_of_dtype")
+                one_case(ctx, a, b, cfg, "corpus.dtype-max")
 
 
 def corpus2(ctx):
@@ -228,6 +250,7 @@ def environment_cases(ctx, n):
 def run(ctx):
     corpus(ctx)
     corpus2(ctx)
+    dtype_max_corpus(ctx)
     environment_cases(ctx, ctx.scale(8, 40))
     rejection_cases(ctx, ctx.scale(80, 800))
     run_cases(ctx, ctx.scale(500, 5000), "rand")
